@@ -547,6 +547,8 @@ def run(cx, tier='quick'):
     include_own_scanners(cx, facts, rep, ['::clone::'])
     from .helpers import check_ident_or_index
     check_ident_or_index(cx, rep)
+    from .scope import check_scopes
+    check_scopes(cx, rep, ['::clone::'])
     rep.floor('SUM-CLONE', 15)
     rep.assumptions += ['`*self` of a Copy type is a bitwise copy', 'semantics of match / if let / struct expressions']
     rep.not_decided += ['behaviour of user-supplied clone methods']
